@@ -25,9 +25,9 @@ def img_event(a, u, tid=1, kind='DYLD_uuid_map_a'):
     return E.ev(kind, 0, tid=tid, data=U[u] + B.le(a, 8) + B.le(1, 8))
 
 
-def sample_events(n, words, flags=8, tid=1):
-    # header words 2 and 3 are not the frame count: they carry other values
-    evs = [E.ev('PERF_Event', 1, (flags, 1, 0, 0), tid), E.ev('PERF_STK_UHdr', 0, (1, n, 5, 3), tid)]
+def sample_events(n, words, flags=8, tid=1, hflags=1):
+    # header words 2 and 3 are not the frame count: they carry other values; word 0 is the header's own flag word
+    evs = [E.ev('PERF_Event', 1, (flags, 1, 0, 0), tid), E.ev('PERF_STK_UHdr', 0, (hflags, n, 5, 3), tid)]
     for i in range(0, len(words), 4):
         w = list(words[i:i + 4])
         w += [0] * (4 - len(w))
@@ -64,6 +64,12 @@ def make_items():
     items.append(('samp-mixed', 7, tuple(WORDS[2:10]), None))
     # a sample window whose END was lost (START, header, data, no END): the next sample of the thread must not inherit anything
     items.append(('samp-unfinished', 4, tuple(WORDS[8:12]), None))
+    # stack headers whose own flag word has other declared bits set (PC fix-up, truncated, 64-bit, ...): the frames are still the first N words
+    items.append(('samp-hdr', 4, tuple(WORDS[3:11]), 0x101))
+    items.append(('samp-hdr', 8, tuple(WORDS[3:11]), 0x1ff))
+    # un-map records are not announcements
+    items.append(('unmap', 0x2001, 1, [img_event(0x2001, 1, kind='DYLD_uuid_unmap_a')]))
+    items.append(('unmap', 0x0800, 0, [img_event(0x0800, 0, kind='DYLD_uuid_unmap_a')]))
     return items
 
 
@@ -71,8 +77,10 @@ ITEMS = make_items()
 
 
 def events_of(it):
-    if it[0] in ('img', 'launch'):
+    if it[0] in ('img', 'launch', 'unmap'):
         return it[3]
+    if it[0] == 'samp-hdr':
+        return sample_events(it[1], it[2], hflags=it[3])
     if it[0] == 'samp':
         return sample_events(it[1], it[2])
     if it[0] == 'samp-noflag':
@@ -125,7 +133,7 @@ def ref(seq):
             for a, u, kind in sorted(it[1], key=lambda x: (x[2] != 'a', x[0])):
                 if all(x != a for x, _ in imgs):
                     imgs.append((a, uuid.UUID(bytes=U[u])))
-        elif it[0] in ('samp', 'samp-tid2', 'samp-mixed'):
+        elif it[0] in ('samp', 'samp-tid2', 'samp-mixed', 'samp-hdr'):
             words = list(it[2]) + [0] * ((-len(it[2])) % 4)
             frames = words[:it[1]]
             fr = []
